@@ -1,7 +1,7 @@
 """C01: per-actor certificates + glue (see lean/Poupool/Properties/C01.lean and checks/actors_common.py)."""
 from checks import actors_common as ac
 
-THEOREMS = ['Poupool.C01.filtration_halt', 'Poupool.C01.filtration_halt_accepted_everywhere', 'Poupool.C01.filtration_halt_lands_in_halt', 'Poupool.C01.heating_off_unless_heating_or_forcing', 'Poupool.C01.swim_off_when_halted', 'Poupool.C01.disinfection_cancels_pwm_when_halted', 'Poupool.C01.pwm_on_only_while_armed', 'Poupool.C01.disinfection_slave_ok', 'Poupool.C01.glue_disinfection', 'Poupool.C01.heating_force_slave_ok', 'Poupool.C01.heating_heat_slave_ok', 'Poupool.C01.swim_slave_ok', 'Poupool.C01.glue_swim', 'Poupool.C01.glue_heating_not_forcing', 'Poupool.C01.glue_heating_not_heating', 'Poupool.C01.pwm_slave_ok', 'Poupool.C01.glue_pwm']
+THEOREMS = ['Poupool.C01.switch_off_is_high', 'Poupool.C01.pump_speed_one_hot', 'Poupool.C01.filtration_halt', 'Poupool.C01.filtration_halt_accepted_everywhere', 'Poupool.C01.filtration_halt_lands_in_halt', 'Poupool.C01.heating_off_unless_heating_or_forcing', 'Poupool.C01.swim_off_when_halted', 'Poupool.C01.disinfection_cancels_pwm_when_halted', 'Poupool.C01.pwm_on_only_while_armed', 'Poupool.C01.disinfection_slave_ok', 'Poupool.C01.glue_disinfection', 'Poupool.C01.heating_force_slave_ok', 'Poupool.C01.heating_heat_slave_ok', 'Poupool.C01.swim_slave_ok', 'Poupool.C01.glue_swim', 'Poupool.C01.glue_heating_not_forcing', 'Poupool.C01.glue_heating_not_heating', 'Poupool.C01.pwm_slave_ok', 'Poupool.C01.glue_pwm']
 MODULE = "Poupool.Properties.C01"
 
 
@@ -18,3 +18,65 @@ def search(chk):
 
 def replay(path):
     return ac.replay(path)
+
+
+def extra(chk, info, res):
+    """GPIO contract of the output devices: exhaustive comparison of the real SwitchDevice / PumpDevice with Model/Devices.lean"""
+    import json
+    import os
+    import subprocess
+
+    from vlib.common import REPO, VERIF
+
+    code = r'''
+import sys, json
+sys.path.insert(0, %r)
+from sim.system import bootstrap
+bootstrap()
+import controller.device as D
+class G:
+    OUT = 0
+    def __init__(self): self.lv = {}
+    def setup(self, *a): pass
+    def output(self, pins, vals):
+        if isinstance(pins, (list, tuple)):
+            vals = vals if isinstance(vals, (list, tuple)) else [vals] * len(pins)
+            for p, v in zip(pins, vals): self.lv[p] = bool(v)
+        else: self.lv[pins] = bool(vals)
+g = G()
+out = {}
+sw = D.SwitchDevice("x", g, 7)
+out["init"] = g.lv[7]
+sw.on(); out["on"] = g.lv[7]
+sw.off(); out["off"] = g.lv[7]
+p = D.PumpDevice("v", g, [1, 2, 3, 4])
+out["pinit"] = [g.lv[i] for i in (1, 2, 3, 4)]
+out["speed"] = {}
+for v in range(4):
+    p.speed(v); out["speed"][v] = [g.lv[i] for i in (1, 2, 3, 4)]
+p.on(); out["pon"] = [g.lv[i] for i in (1, 2, 3, 4)]
+p.off(); out["poff"] = [g.lv[i] for i in (1, 2, 3, 4)]
+bad = []
+for v in (-1, 4, 7):
+    try:
+        p.speed(v); bad.append(v)
+    except AssertionError:
+        pass
+out["accepted_out_of_range"] = bad
+print("RESULT " + json.dumps(out))
+''' % VERIF
+    p = subprocess.run(["/venv/bin/python", "-c", code], capture_output=True, text=True, timeout=300, env={**os.environ, "POUPOOL_REPO": REPO})
+    real = None
+    for line in p.stdout.split("\n"):
+        if line.startswith("RESULT "):
+            real = json.loads(line[7:])
+    if real is None:
+        chk.obligation("harness: real SwitchDevice/PumpDevice on a recording GPIO", False, (p.stdout + p.stderr)[-800:])
+        return
+    model_speed = {str(v): [i != v for i in range(4)] for v in range(4)}
+    ok = (real["init"] is True and real["on"] is False and real["off"] is True and real["pinit"] == [True] * 4
+          and {k: v for k, v in real["speed"].items()} == model_speed and real["pon"] == model_speed["3"] and real["poff"] == model_speed["0"]
+          and real["accepted_out_of_range"] == [])
+    chk.correspondence("SwitchDevice.on/off and PumpDevice.speed(0..3)/on/off (REAL classes, recording GPIO) vs Model/Devices.lean: exhaustive", 10, 0 if ok else 1, detail=None if ok else [real])
+    if not ok:
+        chk.violation("gpio-contract", f"the output devices do not drive the pins as specified (active low, one-hot speed select): {json.dumps(real)[:300]}", {"kind": "gpio", "real": real})
